@@ -102,10 +102,21 @@ class Ctx:
                "-noGenerateSpecTE", "-config", cfg] + extra + [module + ".tla"]
         env = dict(env or {})
         env["JAVA_TOOL_OPTIONS"] = (env.get("JAVA_TOOL_OPTIONS", "") + " -Xmx8g").strip()
-        rc, out, dt = run(cmd, cwd=SPEC, env=env, timeout=timeout + 30)
-        shutil.rmtree(meta, ignore_errors=True)
-        if rc == 124:
-            raise ToolError("TLC timed out after %ss on %s/%s" % (timeout, module, cfg))
+        for attempt in (1, 2, 3):
+            rc, out, dt = run(cmd, cwd=SPEC, env=env, timeout=timeout + 30)
+            shutil.rmtree(meta, ignore_errors=True)
+            if rc == 124:
+                raise ToolError("TLC timed out after %ss on %s/%s" % (timeout, module, cfg))
+            # TLC ended without a verdict (no completion line, no violation report): a transient tool
+            # failure (seen rarely under heavy load). Keep its output and retry; never a verdict.
+            finished = ("Model checking completed" in out or "violated" in out or "Finished in" in out
+                        or "The number of states generated" in out)
+            if finished:
+                break
+            os.makedirs(WORKROOT, exist_ok=True)
+            with open(os.path.join(WORKROOT, "tlc_incomplete_%s_%d_%d.log" % (cfg.replace(".cfg", ""), os.getpid(), attempt)), "w") as f:
+                f.write(" ".join(cmd) + "\n" + out)
+            log("TLC run on %s/%s ended without a verdict (rc=%s), attempt %d - retrying" % (module, cfg, rc, attempt))
         return rc, out, dt
 
     def tlc_mc(self, module, cfg, timeout=600, workers=None, must_cover=True, ignore_uncovered=(), coverage=True):
@@ -119,6 +130,9 @@ class Ctx:
         m = re.search(r"(\d+) states generated, (\d+) distinct states found, (\d+) states left", out)
         if "Model checking completed. No error has been found." not in out or not m:
             tail = "\n".join(l for l in out.splitlines() if not l.startswith(("  |", "  line")))[-5000:]
+            os.makedirs(WORKROOT, exist_ok=True)
+            with open(os.path.join(WORKROOT, "tlc_failed_%s_%d.log" % (cfg.replace(".cfg", ""), os.getpid())), "w") as f:
+                f.write(out)
             raise ToolError("TLC did not verify %s with %s (spec-level failure: the *design* in the "
                             "specification admits a bad state, or a tool problem)\n%s" % (module, cfg, tail))
         actions = {}
